@@ -1041,6 +1041,174 @@ ctl('i2-ping-id-not-recorded', 'C18', 'I2', SL,
 ctl('g3-row-clamp-into-column', 'C08', 'G3', 'modules/dagaz/grid_spatial_partition.go',
     """		cellY = (uint)(math.Min((float64)(cellY), (float64)(len(grid.Grid)-1)))""",
     """		cellX = (uint)(math.Min((float64)(cellY), (float64)(len(grid.Grid)-1)))""", 'IntersectQuad', 'the defect fixed in IntersectQuad, re-introduced')
+# ---- Q rules: the ground-plane index (C20)
+GSP = 'modules/dagaz/grid_spatial_partition.go'
+ctl('q1-z-compared-with-x-bound', 'C20', 'Q1', GSP,
+    """	if p.x >= grid.Min.x && p.z >= grid.Min.z && p.x < grid.Max.x && p.z < grid.Max.z {
+		return
+	}""",
+    """	if p.x >= grid.Min.x && p.z >= grid.Min.z && p.x < grid.Max.x && p.z < grid.Max.x {
+		return
+	}""", 'ExpandToFitPoint:cmp[X~Z]', 'seed C20-3')
+ctl('q1-row-from-x-coordinate', 'C20', 'Q1', GSP,
+    """		minYGridCoord := (uint)(math.Floor((float64)(minPoint.z-grid.Min.z) / (float64)(grid.Resolution)))
+		maxXGridCoord := (uint)(math.Floor((float64)(maxPoint.x-grid.Min.x) / (float64)(grid.Resolution)))
+		maxYGridCoord := (uint)(math.Floor((float64)(maxPoint.z-grid.Min.z) / (float64)(grid.Resolution)))
+
+		for i""",
+    """		minYGridCoord := (uint)(math.Floor((float64)(minPoint.x-grid.Min.x) / (float64)(grid.Resolution)))
+		maxXGridCoord := (uint)(math.Floor((float64)(maxPoint.x-grid.Min.x) / (float64)(grid.Resolution)))
+		maxYGridCoord := (uint)(math.Floor((float64)(maxPoint.z-grid.Min.z) / (float64)(grid.Resolution)))
+
+		for i""", 'InsertQuad', 'the first row of a new plane computed from its x coordinate')
+ctl('q1-helper-called-across-axes', 'C20', 'Q1', 'modules/dagaz/math.go',
+    """				InRangeWithEpsilon(hitPoint.z, minPoint.z, maxPoint.z, 0.0001) {""",
+    """				InRangeWithEpsilon(hitPoint.z, minPoint.x, maxPoint.z, 0.0001) {""", 'IntersectQuad:call:', 'through the summary of InRangeWithEpsilon')
+ctl('q1-origin-moved-by-other-axis-count', 'C20', 'Q1', GSP,
+    """		grid.Min.z = grid.Min.z - (float32)((yCount * (int)(grid.Resolution)))""",
+    """		grid.Min.z = grid.Min.z - (float32)((xCount * (int)(grid.Resolution)))""", 'ExpandToFitPoint:arith[X~Z]')
+ctl('q1-protobuf-components-crossed', 'C20', 'Q1', 'modules/dagaz/math.go',
+    """		y: point.GetY(),
+		z: point.GetZ(),""",
+    """		y: point.GetZ(),
+		z: point.GetY(),""", 'NewVector3fFromProtobuf:store')
+ctl('q2-merged-sample-counted', 'C20', 'Q2', GSP,
+    """			if hit.Center.Equal(quadToMerge.Center) {
+				quadToMerge = nil
+				break
+			}""",
+    """			if hit.Center.Equal(quadToMerge.Center) {
+				grid.PlaneCount++
+				quadToMerge = nil
+				break
+			}""", 'InsertQuad:merged-not-counted')
+ctl('q2-new-plane-not-counted', 'C20', 'Q2', GSP,
+    """		grid.PlaneCount++
+	}
+}""",
+    """	}
+}""", 'InsertQuad:new-plane-counted-once')
+ctl('q3-region-without-dedup', 'C20', 'Q3', GSP,
+    """	quads := make([]*Quad, len(result))
+	i := 0
+	for k := range result {
+		quads[i] = k
+		i++
+	}
+
+	return quads""",
+    """	quads := make([]*Quad, 0, len(result))
+	for y := minYGridCoord; y < maxYGridCoord; y++ {
+		for x := minXGridCoord; x < maxXGridCoord; x++ {
+			quads = append(quads, grid.Grid[y][x]...)
+		}
+	}
+
+	return quads""", 'GetRegion:result-unique', 'a plane is returned once per cell it covers')
+ctl('q3-region-loop-left-early', 'C20', 'Q3', GSP,
+    """			for k := 0; k < len(grid.Grid[y][x]); k++ {
+				result[grid.Grid[y][x][k]] = true
+			}""",
+    """			for k := 0; k < len(grid.Grid[y][x]); k++ {
+				result[grid.Grid[y][x][k]] = true
+				if len(result) >= 64 {
+					break
+				}
+			}""", 'GetRegion:cells-all-visited')
+ctl('q4-sample-elements-skipped', 'C20', 'Q4', 'modules/dagaz/state.go',
+    """	for _, quad := range quads {
+		s.SpatialPartition.InsertQuad(quad)
+	}""",
+    """	for _, quad := range quads {
+		if quad.MergeCount > 0 {
+			continue
+		}
+		s.SpatialPartition.InsertQuad(quad)
+	}""", 'insertQuads:every-element')
+ctl('q4-region-answer-remembered', 'C20', 'Q4', 'modules/dagaz/state.go',
+    """	regionQuads := s.SpatialPartition.GetRegion(min, max)
+	regionQuadsProtobuf := make([]*dagazpb.Quad, len(regionQuads))""",
+    """	if min == max {
+		return nil
+	}
+	regionQuads := s.SpatialPartition.GetRegion(min, max)
+	regionQuadsProtobuf := make([]*dagazpb.Quad, len(regionQuads))""", 'region:answer-from-the-index')
+ctl('q5-center-from-extents', 'C20', 'Q5', 'modules/dagaz/math.go',
+    """	center := NewVector3fFromProtobuf(protoQuad.GetCenter())
+	extents := NewVector3fFromProtobuf(protoQuad.GetExtents())""",
+    """	center := NewVector3fFromProtobuf(protoQuad.GetExtents())
+	extents := NewVector3fFromProtobuf(protoQuad.GetCenter())""", 'NewQuadFromProtobuf:field')
+ctl('q5-region-min-max-crossed', 'C20', 'Q5', 'modules/dagaz/dagaz.go',
+    """	regionQuadsProtobuf := m.state.region(NewVector3fFromProtobuf(req.Min), NewVector3fFromProtobuf(req.Max))""",
+    """	regionQuadsProtobuf := m.state.region(NewVector3fFromProtobuf(req.Max), NewVector3fFromProtobuf(req.Min))""", 'HandleDagazGetRegion:argument')
+ctl('q6-cells-share-one-list', 'C20', 'Q6', GSP,
+    """		for i := minYGridCoord; i <= (uint)(math.Min((float64)(maxYGridCoord), (float64)(len(grid.Grid)-1))); i++ {
+			for j := minXGridCoord; j <= (uint)(math.Min((float64)(maxXGridCoord), (float64)(len(grid.Grid[i])-1))); j++ {
+				grid.Grid[i][j] = append(grid.Grid[i][j], &q)""",
+    """		single := []*Quad{&q}
+		for i := minYGridCoord; i <= (uint)(math.Min((float64)(maxYGridCoord), (float64)(len(grid.Grid)-1))); i++ {
+			for j := minXGridCoord; j <= (uint)(math.Min((float64)(maxXGridCoord), (float64)(len(grid.Grid[i])-1))); j++ {
+				if grid.Grid[i][j] == nil {
+					grid.Grid[i][j] = single
+					continue
+				}
+				grid.Grid[i][j] = append(grid.Grid[i][j], &q)""", 'InsertQuad:cell-owns-its-list', 'seed C20-15')
+ctl('q7-expansion-after-cell-range', 'C20', 'Q7', GSP,
+    """	// calculate the min cell and max cell again:
+	minPoint = Sub(existingQuad.Center, existingQuad.Extents)
+	maxPoint = Add(existingQuad.Center, existingQuad.Extents)""",
+    """	// calculate the min cell and max cell again:
+	minPoint = Sub(existingQuad.Center, existingQuad.Extents)
+	maxPoint = Add(existingQuad.Center, existingQuad.Extents)
+	grid.ExpandToFitPoint(&minPoint)
+	grid.ExpandToFitPoint(&maxPoint)""", 'mergeQuads:index-after-expansion', 'seed C20-14')
+# ---- F2c: container-owning model structs are not copied
+ctl('f2c-participant-copied-on-switch', 'C06', 'F2c', RT,
+    """	participant := &models.Participant{
+		ID:            session.NewParticipantID(),
+		Responder:     respond,
+		SignedLatency: &models.SignedLatency{},
+	}
+""",
+    """	participant := &models.Participant{
+		ID:            session.NewParticipantID(),
+		Responder:     respond,
+		SignedLatency: &models.SignedLatency{},
+	}
+	if prev := h.currentParticipant; prev != nil {
+		*participant = *prev
+		participant.Responder = respond
+	}
+""", 'HandleParticipantJoin:deref-copy', 'seeds C03-15, C05-15, C06-15')
+ctl('f2c-participant-copied-on-switch-c03', 'C03', 'F2c', RT,
+    """	participant := &models.Participant{
+		ID:            session.NewParticipantID(),
+		Responder:     respond,
+		SignedLatency: &models.SignedLatency{},
+	}
+""",
+    """	var participant *models.Participant
+	if prev := h.currentParticipant; prev != nil {
+		cp := *prev
+		participant = &cp
+	} else {
+		participant = &models.Participant{}
+	}
+	participant.Responder = respond
+	participant.SignedLatency = &models.SignedLatency{}
+""", 'HandleParticipantJoin:deref-copy')
+# ---- G5: every received message reaches the main loop
+ctl('g5-message-answered-by-the-receiver', 'C08', 'G5', 'websocket/handler.go',
+    """			if err = h.dispatcher.Dispatch(ctx, msg); err != nil {""",
+    """			if msg.Type == hagallpb.MsgType_MSG_TYPE_PING_RESPONSE {
+				continue
+			}
+			if err = h.dispatcher.Dispatch(ctx, msg); err != nil {""", 'startReceiving:every-message-dispatched', 'seed C08-16')
+ctl('e1-modules-not-told-on-switch-c01', 'C01', 'E1', RT,
+    """		m.HandleDisconnect()
+""",
+    """		_ = m
+""", 'leaveSession:modules-told', 'seed C01-14')
 # ---- ids / registry / silent drops / flag set
 ctl('d5-asset-id-from-set-size', 'C10', 'D5', 'modules/odal/state.go',
     """	return s.assetInstanceIDs.New()""",
